@@ -171,6 +171,12 @@ def registry_history(run, model, rng):
             # registry than the previous hit, unregistered codes in between: the look-up must not depend on earlier look-ups)
             from props import c18
             ref = rng.choice(["BD", "11", "BC", "B7"]) + rng.choice(["8D", "00", "12"]) + rng.choice(["8D12", "1234", "E500", "00E5", "2030", "8D00"])
+            hits = [p_ for p_ in pels if len(p_["SRC"].get("ReasonCode", "")) == 6]
+            if hits and rng.random() < 0.7:
+                # a code that IS in the registry (the same entry is hit again and again within a history, its message arguments and
+                # word descriptions included)
+                h = rng.choice(hits[:2])
+                ref = h["SRC"].get("Type", "BD") + rng.choice(["8D", "00"]) + h["SRC"]["ReasonCode"][2:6]
             body, _words = c18.src_body(rng, ref, proc=rng.choice([None, "BMC0001"]), wcount=9)
             secs.insert(0, (b"PS", 1, 1, comp, body))
         if rng.random() < 0.5:
